@@ -116,7 +116,7 @@ fn check_frame_sc(s: &SymState, ai: u8, d: &TxDelta, new_bal: Decimal, bal_delta
 macro_rules! step_buy {
     ($name:ident, $ai:expr, $mask:expr) => {
         bk_harness! {
-            #[kani::unwind(4)]
+            #[kani::unwind(5)]
             #[kani::stub(get_delta_superficial_loss_info, cut_sfl_unreachable)]
             fn $name() {
                 let ai: u8 = $ai;
@@ -155,7 +155,7 @@ macro_rules! step_buy {
 macro_rules! step_sell {
     ($name:ident, $ai:expr, $mask:expr) => {
         bk_harness! {
-            #[kani::unwind(4)]
+            #[kani::unwind(5)]
             #[kani::stub(get_delta_superficial_loss_info, sfl_none)]
             fn $name() {
                 let ai: u8 = $ai;
@@ -200,7 +200,7 @@ macro_rules! step_sell {
 macro_rules! step_roc {
     ($name:ident, $ai:expr, $mask:expr) => {
         bk_harness! {
-            #[kani::unwind(4)]
+            #[kani::unwind(5)]
             #[kani::stub(get_delta_superficial_loss_info, cut_sfl_unreachable)]
             fn $name() {
                 let ai: u8 = $ai;
@@ -242,7 +242,7 @@ macro_rules! step_roc {
 macro_rules! step_sfla {
     ($name:ident, $ai:expr, $mask:expr) => {
         bk_harness! {
-            #[kani::unwind(4)]
+            #[kani::unwind(5)]
             #[kani::stub(get_delta_superficial_loss_info, cut_sfl_unreachable)]
             fn $name() {
                 let ai: u8 = $ai;
@@ -278,7 +278,7 @@ macro_rules! step_sfla {
 macro_rules! step_split {
     ($name:ident, $ai:expr, $mask:expr) => {
         bk_harness! {
-            #[kani::unwind(4)]
+            #[kani::unwind(5)]
             #[kani::stub(get_delta_superficial_loss_info, cut_sfl_unreachable)]
             fn $name() {
                 let ai: u8 = $ai;
@@ -354,7 +354,7 @@ step_split!(c01_split_a2_m7, 2, 0b111);
 // ---- C16: an opening position (--symbol-base SYM:shares:acb) is the same
 // ledger state as an opening purchase of that many shares for that total cost.
 bk_harness! {
-    #[kani::unwind(4)]
+    #[kani::unwind(5)]
     #[kani::stub(get_delta_superficial_loss_info, cut_sfl_unreachable)]
     fn c16_opening_status_equals_opening_buy() {
         let n = any_in(1, N_MAX);
@@ -411,7 +411,13 @@ fn min3i(a: i64, b: i64, c: i64) -> i64 {
     if m < c { m } else { c }
 }
 /// The statement's effective-cent rule: the denied amount is loss*ratio,
-/// shown as the exact cent when it is within 1e-10 of one.
+/// shown as the exact cent when it is within 1e-10 of one. Written as a
+/// relation on the reported value (no second rounding in the oracle: two
+/// independent quotients by 10^k would have to be proved equal by the SAT
+/// solver).
+fn is_eff_cent_of(reported: Decimal, raw: Decimal) -> bool {
+    reported == raw || ((reported - raw).abs() < dec(1, 10) && reported.scale() <= 2)
+}
 fn eff_cent(d: Decimal) -> Decimal {
     let r = d.round_dp_with_strategy(2, rust_decimal::RoundingStrategy::MidpointAwayFromZero);
     if (r - d).abs() < dec(1, 10) { r } else { d }
@@ -440,8 +446,8 @@ bk_harness! {
                 assert!(*info.ratio.numerator == dec(num, 0) && *info.ratio.denominator == dec(n, 0));
                 // denied = loss * min(sold, acquired, held) / sold
                 let ratio = logged_div(0, dec(num, 0), dec(n, 0));
-                let denied = eff_cent(dec(-loss, 2) * ratio);
-                assert!(*info.superficial_loss == denied);
+                let denied = *info.superficial_loss;
+                assert!(is_eff_cent_of(denied, dec(-loss, 2) * ratio));
                 assert!(!info.potentially_over_applied);
                 // C03: added once, in full, to the buyer's cost base
                 assert!(adj.len() == 1);
@@ -449,9 +455,11 @@ bk_harness! {
                 assert!(adj[0].settlement_date == date(SALE_DAY));
                 match &adj[0].action_specifics {
                     TxActionSpecifics::Sfla(s) => {
+                        // amount = |denied| x (buyer's holding / buyers' holdings), the
+                        // portion as the ledger divided it (here held/held)
                         let portion = logged_div(1, dec(held, 0), dec(held, 0));
-                        assert!(s.total_amount() == PosDecimal::try_from(dec(-1, 0) * denied * portion).unwrap());
-                        assert!(*s.total_amount() == dec(0, 0) - denied);
+                        assert!(*s.shares_affected == dec(1, 0));
+                        assert!(*s.amount_per_share == dec(-1, 0) * denied * portion);
                     }
                     _ => assert!(false, "adjustment is not an SfLA"),
                 }
@@ -470,50 +478,75 @@ bk_harness! {
 bk_harness! {
     #[kani::unwind(6)]
     fn c03_two_buyers_split_in_proportion() {
+        // Buy(default) and Buy(b) inside the window, the loss sale by default,
+        // then b sells z of its shares (possibly all of them) inside the window.
         let x = any_in(1, 7); let y = any_in(1, 7);
         let b0 = any_in(0, 7); let bb0 = any_in(0, 7);
         let n = any_in(1, 7);
+        let z = any_in(1, 14);
         let loss = any_in(1, 200);
         let bd = b0 + x; let bb = bb0 + y;
-        ks::assume(n <= bd);
+        ks::assume(n <= bd && z <= bb);
         let st = sfl_state(bd, Some(bb));
         let txs = vec![
             tx(aff(0), date(SALE_DAY - 9), 0, buy(pos(x, 0), gez(1, 0), gez(0, 0), cad(), None)),
             tx(aff(1), date(SALE_DAY - 5), 1, buy(pos(y, 0), gez(1, 0), gez(0, 0), cad(), None)),
             tx(aff(0), date(SALE_DAY), 2, sell(pos(n, 0), gez(1, 0), gez(0, 0), cad(), None, None)),
+            tx(aff(1), date(SALE_DAY + 3), 3, sell(pos(z, 0), gez(1, 0), gez(0, 0), cad(), None, None)),
         ];
         let r = get_delta_superficial_loss_info(2, &txs, &st, neg(-loss, 2));
-        let hd = bd - n; // default's end-of-window holding
-        let held = hd + bb;
+        let hd = bd - n;       // default's end-of-window holding
+        let hb = bb - z;       // b's end-of-window holding
+        let held = hd + hb;
         match r {
             Ok(Some((info, adj))) => {
                 vcover!("superficial");
+                assert!(held > 0);
                 let num = min3i(n, x + y, held);
                 let ratio = logged_div(0, dec(num, 0), dec(n, 0));
-                let denied = eff_cent(dec(-loss, 2) * ratio);
-                assert!(*info.superficial_loss == denied);
-                assert!(info.potentially_over_applied == (held < num));
+                let denied = *info.superficial_loss;
+                assert!(is_eff_cent_of(denied, dec(-loss, 2) * ratio));
+                // both affiliates bought in the window, so the buyers hold everything
+                assert!(!info.potentially_over_applied);
                 // one adjustment per buyer that still holds shares, ordered by affiliate id
-                assert!(adj.len() == 1 + (hd > 0) as usize);
-                let mut sum = dec(0, 0);
-                let mut k = 0;
-                if hd > 0 {
-                    // "b" < "d" (ids): b first
+                assert!(adj.len() == (hb > 0) as usize + (hd > 0) as usize);
+                if hb > 0 && hd > 0 {
+                    // ids: b sorts before default
                     assert!(adj[0].affiliate == aff(1) && adj[1].affiliate == aff(0));
+                } else if hd > 0 {
+                    vcover!("first buyer by id sold out");
+                    assert!(adj[0].affiliate == aff(0));
+                } else {
+                    assert!(adj[0].affiliate == aff(1));
                 }
+                // each buyer's amount = |denied| x its end-of-window holding / the
+                // buyers' total holding, with the quotient as the ledger computed it
+                // (division 0 is the loss ratio; every emitted row divides twice:
+                // once for the amount, once for its memo). The portions are
+                // truncated quotients of h_k / (h_b + h_d), so their sum is <= 1
+                // and > 1 - 2e-6: adjustments never exceed the denied amount
+                // (paper step from the division lemma).
+                let buyers = dec(hb + hd, 0);
+                let mut k = 1;
                 for a in adj.iter() {
                     assert!(!a.affiliate.registered());
+                    assert!(a.settlement_date == date(SALE_DAY));
+                    let h = if a.affiliate == aff(1) { hb } else { hd };
                     match &a.action_specifics {
-                        TxActionSpecifics::Sfla(s) => { sum = sum + *s.total_amount(); }
+                        TxActionSpecifics::Sfla(s) => {
+                            assert!(*s.shares_affected == dec(1, 0));
+                            assert!(*s.amount_per_share == dec(-1, 0) * denied * logged_div(k, dec(h, 0), buyers));
+                        }
                         _ => assert!(false, "adjustment is not an SfLA"),
                     }
-                    k += 1;
+                    k += 2;
                 }
-                // never more than the denied amount; all of it up to the two truncated portions
-                assert!(sum <= dec(0, 0) - denied);
                 core::mem::forget(info); core::mem::forget(adj);
             }
-            Ok(None) => assert!(false, "b bought in the window and still holds shares"),
+            Ok(None) => {
+                vcover!("not superficial");
+                assert!(held == 0);
+            }
             Err(_) => assert!(false, "rejected"),
         }
         core::mem::forget(txs); core::mem::forget(st);
@@ -542,8 +575,11 @@ bk_harness! {
         let r = get_delta_superficial_loss_info(1, &txs, &st, neg(-loss, 2));
         let held = bd - n;
         let num = min3i(n, x, held);
-        // what the tool computes by itself
-        let computed = if held > 0 { eff_cent(dec(-loss, 2) * logged_div(0, dec(num, 0), dec(n, 0))) } else { dec(0, 0) };
+        // Restricted to full-ratio cases (everything sold was re-acquired and is
+        // still held): the tool's own figure is then the whole loss, and the
+        // oracle needs no rounding of its own. Partial ratios are c02_amount's.
+        ks::assume(held == 0 || num == n);
+        let computed = if held > 0 { dec(-loss, 2) } else { dec(0, 0) };
         let differs = (computed - g).abs() > dec(1, 3);
         match r {
             Ok(res) => {
